@@ -3,6 +3,7 @@ package main
 import (
 	"fmt"
 	"sort"
+	"strings"
 	"sync/atomic"
 
 	"github.com/esimov/gogu/heap"
@@ -133,6 +134,8 @@ func (s *heapSys) Ops() []seqmc.Op {
 		ops = append(ops, op("Delete", i))
 	}
 	ops = append(ops, op("Convert", 0), op("Convert", 1))
+	// aliased arguments: a heap melded with itself keeps every element once
+	ops = append(ops, op("MeldSelf"))
 	for i, o := range s.others() {
 		// second argument: the partner heap is ordered by the same (0) or the opposite (1) comparator;
 		// the result is a heap under the receiver's comparator in both cases
@@ -142,6 +145,11 @@ func (s *heapSys) Ops() []seqmc.Op {
 			}
 			if len(s.model)+len(o) <= s.cap {
 				ops = append(ops, op("MergeAdopt", i, opp), op("MeldAdopt", i, opp))
+				if opp == 0 {
+					// the result is adopted and afterwards the SOURCE heap is converted to the opposite
+					// comparator: the result must keep the order it was created with
+					ops = append(ops, op("MergeAdoptConvertSource", i, opp), op("MeldAdoptConvertSource", i, opp))
+				}
 			} else {
 				ops = append(ops, op("MergeDrop", i, opp))
 			}
@@ -261,7 +269,16 @@ func (s *heapSys) Apply(o seqmc.Op, c *seqmc.Ctx) {
 	case "Convert":
 		s.cmp = []string{"<", ">"}[o.I[0]]
 		s.h.Convert(hComps[s.cmp])
-	case "MergeAdopt", "MergeDrop", "MeldAdopt":
+	case "MeldSelf":
+		r := s.h.Meld(s.h)
+		if s.h.Size() != 0 {
+			c.Fail(n+"Meld/inputs-not-emptied", "after h.Meld(h) the heap has size %d, want 0", s.h.Size())
+		}
+		if r.Size() != len(s.model) {
+			c.Fail(n+"Meld/self/result-size", "h.Meld(h) of a heap holding %d elements has Size %d: every element is held once", len(s.model), r.Size())
+		}
+		s.h = r
+	case "MergeAdopt", "MergeDrop", "MeldAdopt", "MergeAdoptConvertSource", "MeldAdoptConvertSource":
 		other := s.others()[o.I[0]]
 		od := append([]hE{}, other...)
 		cmp2 := s.cmp
@@ -270,7 +287,10 @@ func (s *heapSys) Apply(o seqmc.Op, c *seqmc.Ctx) {
 		}
 		h2 := heap.FromSlice(od, hComps[cmp2])
 		union := append(append([]hE{}, s.model...), other...)
-		if o.N == "MeldAdopt" {
+		convSrc := strings.HasSuffix(o.N, "ConvertSource")
+		opposite := hComps[map[string]string{"<": ">", ">": "<"}[s.cmp]]
+		if o.N == "MeldAdopt" || o.N == "MeldAdoptConvertSource" {
+			src := s.h
 			r := s.h.Meld(h2)
 			if s.h.Size() != 0 || h2.Size() != 0 {
 				c.Fail(n+"Meld/inputs-not-emptied", "after Meld the inputs have sizes %d and %d, want 0 and 0", s.h.Size(), h2.Size())
@@ -279,6 +299,10 @@ func (s *heapSys) Apply(o seqmc.Op, c *seqmc.Ctx) {
 				c.Fail(n+"Meld/result-size", "Meld result has Size %d, want %d", r.Size(), len(union))
 			}
 			s.h, s.model = r, union
+			if convSrc {
+				src.Convert(opposite)
+				h2.Convert(opposite)
+			}
 			return
 		}
 		b1, b2 := seqmc.Dump(s.h), seqmc.Dump(h2)
@@ -289,8 +313,12 @@ func (s *heapSys) Apply(o seqmc.Op, c *seqmc.Ctx) {
 		if r.Size() != len(union) {
 			c.Fail(n+"Merge/result-size", "Merge result has Size %d, want %d", r.Size(), len(union))
 		}
-		if o.N == "MergeAdopt" {
+		if o.N == "MergeAdopt" || o.N == "MergeAdoptConvertSource" {
+			src := s.h
 			s.h, s.model = r, union
+			if convSrc {
+				src.Convert(opposite)
+			}
 		} else if msg := drainCheck(r, s.before, union); msg != "" {
 			c.Soft(n+"Merge/result-"+drainCls(msg), "Merge result: %s", msg)
 		}
